@@ -381,7 +381,7 @@ def check(col, root, how, case_label):
             if 'subsection' in lab:
                 # a same-named sub-Section is irrelevant for the documented rule; when it is what
                 # makes the run special, the value part of the label says nothing about the crash
-                lab = lab.split('/')[0]
+                lab = 'dependency-names-a-subsection'
             feature += ': ' + lab
         elif kind and obj is not None and is_prop(obj):
             # object outside the expectation scope cannot happen; be defensive
@@ -428,8 +428,9 @@ def check(col, root, how, case_label):
             # diagnosis: is the issue reported when the Property itself is validated? then the rule works and
             # the Property was simply not examined while its Section was validated
             alone = h.call(Validation, ex.objs[key[0]])
-            if alone[0] == 'ret' and any(e.obj is ex.objs[key[0]] and getattr(e.validation_id, 'name', None) == key[1]
-                                         for e in alone[1].errors):
+            # (a crash of that run is reported by the case that validates the Property itself)
+            if alone[0] == 'exc' or any(e.obj is ex.objs[key[0]] and getattr(e.validation_id, 'name', None) == key[1]
+                                        for e in alone[1].errors):
                 omitted.append(key)
                 continue
         problems.append((key, g, x))
